@@ -2,7 +2,7 @@
 import ast
 
 from ..cfg import CFG
-from ..report import AnalysisError, norm
+from ..report import borrow, AnalysisError, norm
 from ..srcmodel import own_nodes, own_statements
 from ..terms import Resolver, alternatives, show, walk
 
@@ -37,6 +37,12 @@ def run(rep, ctx):
     rep.run_rule("C12.R4", "the validity memo of an Array is written only from the outcome of its own validation", r4_memo, ctx)
     rep.run_rule("C12.R5", "CheckValue raises a ValueError subclass, which IsValid catches", r5_exceptions, ctx)
     rep.run_rule("C12.R6", "registration: default value asserted against the final limits on every non-derived path; default unit checked before the store", r6_registration, ctx)
+    from . import c13
+    rep.rule("C12.R7", "value objects keep no validation state besides the known verdict memo of Array, which is written only by ValidateValues (shared with C13.R1)")
+    try:
+        borrow(rep, c13.r1_writers, ctx, "C13.R1", "C12.R7", keep=lambda o: o.key.endswith(":new-state") or "_is_valid" in o.key or "_validity_exception" in o.key)
+    except AnalysisError as e:
+        rep.error("C12.R7", str(e))
     rep.not_decided += [
         "acceptance 'exactly when' for arbitrary floats (operator, operand order and dataflow are decided, not arithmetic)",
         "numpy arrays with more than one dimension",
